@@ -718,7 +718,16 @@ func main() {
 	ghost = node.K("ghost").Addr
 	deputynode.SetSelfNodeKey(node.Deputy(0).Priv)
 
+	// phase "schedule" (schedule.go) runs in shard processes: self key, clock and task queue are process-global
+	if i, n, ok := core.IsWorker(); ok {
+		schedWorker(i, n)
+		return
+	}
+
 	if core.Opt.Replay != "" {
+		if replayPhase(core.Opt.Replay) != "" {
+			schedReplay(core.Opt.Replay)
+		}
 		var c caseID
 		if err := core.LoadReplay(core.Opt.Replay, &c); err != nil {
 			fmt.Fprintln(os.Stderr, "cannot load replay:", err)
@@ -806,6 +815,8 @@ func main() {
 		}
 	}
 	r.Add("grid_items", int64(len(items))-skipped)
+	r.Add("grid_evaluations", r.Counters["evaluations"])
+	runSchedulePhase(r)
 	r.Extra["evaluations_per_height_class"] = perClass
 	r.Extra["bound"] = map[string]interface{}{"max_deputies": items[len(items)-1].N, "slots_ms": slots, "heights": heights, "term_duration": termDur, "interim_duration": interim, "rounds": 3, "far_rounds": []int64{1000, 1000000}}
 	core.Finish(r)
